@@ -8,6 +8,11 @@ import (
 
 // proveLemma proves a named lemma from the axioms (and the lemmas declared before it).
 func proveLemma(P *Program, name, dir string, timeout int, cross bool) (solverAnswer, string, error) {
+	return proveLemmaRegion(P, name, dir, timeout, cross, "")
+}
+
+// proveLemmaRegion proves (region || lemma): the lemma outside the region of a recorded finding.
+func proveLemmaRegion(P *Program, name, dir string, timeout int, cross bool, region string) (solverAnswer, string, error) {
 	var target *Axiom
 	var before []*Axiom
 	for _, ax := range P.spec.Axioms {
@@ -15,13 +20,24 @@ func proveLemma(P *Program, name, dir string, timeout int, cross bool) (solverAn
 			target = ax
 			break
 		}
+	}
+	// facts available: every axiom, and the lemmas declared before the target
+	seenTarget := false
+	for _, ax := range P.spec.Axioms {
+		if ax == target {
+			seenTarget = true
+			continue
+		}
+		if ax.Lemma && seenTarget {
+			continue
+		}
 		before = append(before, ax)
 	}
 	if target == nil {
 		return solverAnswer{}, "", fmt.Errorf("lemma %s not found", name)
 	}
 	g := &gen{P: P, fs: &FuncSpec{}, c: newSmtCtx(target.Strings), name: "lemma", oblNames: map[string]int{}, allVars: map[string]string{},
-		used: map[string]bool{}, snapNames: map[string]bool{}, localCell: map[string]string{}, fieldRefs: map[string]*fieldAccess{}, finalVals: map[*ssa.FreeVar]Val{}}
+		used: map[string]bool{}, snapNames: map[string]bool{}, localCell: map[string]string{}, fieldRefs: map[string]*fieldAccess{}, finalVals: map[*ssa.FreeVar]Val{}, pureCache: map[*SpecFunc]bool{}}
 	st := &State{m: map[string]string{}}
 	var facts []string
 	for _, ax := range before {
@@ -55,6 +71,17 @@ func proveLemma(P *Program, name, dir string, timeout int, cross bool) (solverAn
 	goal, err := e.trBool(goalExpr)
 	if err != nil {
 		return solverAnswer{}, "", fmt.Errorf("lemma %s: %v", name, err)
+	}
+	if region != "" {
+		re, err := parseExpr(region)
+		if err != nil {
+			return solverAnswer{}, "", fmt.Errorf("lemma %s: region: %v", name, err)
+		}
+		rt, err := e.trBool(re)
+		if err != nil {
+			return solverAnswer{}, "", fmt.Errorf("lemma %s: region: %v", name, err)
+		}
+		goal = or(rt, goal)
 	}
 	var sb strings.Builder
 	sb.WriteString("(set-option :produce-models true)\n(set-logic ALL)\n")
